@@ -115,6 +115,12 @@ func (sg *SimpleGlyph) parsePoints(src []byte, _ int) error {
 
 	const repeatFlag = 0x08
 
+	// a repeated flag with unchanged coordinates describes 256 points with two bytes:
+	// such runs of identical points have no use, refuse a glyph made of them
+	if numPoints > 16*len(src) {
+		return errors.New("invalid simple glyph: too many points for its data")
+	}
+
 	sg.Points = make([]GlyphContourPoint, numPoints)
 
 	// read flags
